@@ -96,11 +96,15 @@ where
         let path = self.changes_path();
         fs::create_dir_all(&path)?;
 
+        // Records above the state being committed from belong to an abandoned future
+        // (left behind by a rollback): they must go even when they are below `stamp`,
+        // otherwise they break the stamp chain walked by `rollback_before`.
+        let current = self.header.stamp();
         let files: BTreeMap<Stamp, PathBuf> = fs::read_dir(&path)?
             .filter_map(|entry| {
                 let path = entry.ok()?.path();
                 let s = Stamp::from(path.file_name()?.to_str()?.parse::<u64>().ok()?);
-                if s < stamp {
+                if s < stamp && s <= current {
                     Some((s, path))
                 } else {
                     let _ = fs::remove_file(&path);
